@@ -11,6 +11,9 @@ echo "== demo on patched tree"; PYTHONPATH="$WT" PYTHONHASHSEED=0 timeout 600 /v
 cd /verif
 for P in "$@"; do
   echo "== check $P on patched tree"
-  UP_REPO="$WT" ./check "$P" --tier quick 2>&1 | grep -v WARNING | grep -E "^(OK|VIOLATION|KNOWN)" | cut -c1-200 | head -6
+  UP_REPO="$WT" ./check "$P" --tier quick 2>&1 | grep -v WARNING > /tmp/seedtest_out_$$
+  grep -E "^(OK|VIOLATION)" /tmp/seedtest_out_$$ | cut -c1-200 | head -4
+  echo "KNOWN-FINDING lines: $(grep -c '^KNOWN' /tmp/seedtest_out_$$)"
+  rm -f /tmp/seedtest_out_$$
 done
 git -C /repo worktree remove --force "$WT"
